@@ -148,7 +148,7 @@ def gen_case(rng: random.Random, cfg: str | None = None, max_nodes: int = 8, fra
         # in narrow dtypes
         r = rng.random()
         base = 0 if r < 0.7 else (46400 if r < 0.85 else 70000)
-        spec["seg_dtype"] = rng.choice(["int32", "int32", "int64", "uint32"]) if base else rng.choice(["int64", "int64", "int32", "uint16", "uint32"])
+        spec["seg_dtype"] = rng.choice(["int32", "int32", "int64", "uint32"]) if base else rng.choice(["int64", "int64", "int32", "uint16", "uint32", "uint8", "int16"])
         if base:
             spec["id_base"] = base
             for x in nodes:
@@ -185,6 +185,9 @@ def gen_case(rng: random.Random, cfg: str | None = None, max_nodes: int = 8, fra
             spec["prebuilt_no_lineage"] = True
     if rng.random() < 0.5:
         spec["w_unregistered"] = True   # the custom edge feature is registered later (or never)
+    if cfg == "seg" and rng.random() < 0.15:
+        # the label array is not C-contiguous: a crop of a larger array / Fortran order
+        spec["seg_layout"] = rng.choice(["crop", "F"])
     if cfg == "seg" and not spec.get("prebuilt") and spec.get("via") in (None, "deepcopy") and rng.random() < 0.15:
         # computed features renamed (annotators.change_key) while still inactive, enabled under the new key
         names = {F.K_IOU: "overlap", F.K_CIRC: "roundness", F.K_PERIM: "border", F.K_ELL: "axes_radii"}
